@@ -54,6 +54,12 @@ def gen_cases(tier, rng):
             extra.append("//" + pth + sf)
             if pth:
                 extra.append(pth + sf)
+        # the name repeats the last component of the package part: the one spelling a printer may be tempted to shorten
+        # (//a/b:b is the label shorthand //a/b, but //a/b/...:b is NOT //a/b/...) -- seed C17q
+        if pth:
+            last = pth.rsplit("/", 1)[-1]
+            for sf in ("/...:" + last, ":" + last, "//...:" + last, "/:" + last):
+                extra.append("//" + pth + sf)
     extra_curs = [".", "a:b", "x...y", "a/", "zz"]
     return strings, extra, extra_curs
 
